@@ -1,0 +1,182 @@
+//go:build verif
+
+package leveldb
+
+// Verification hooks (build tag "verif"). These only observe; they add no
+// behaviour to the DB besides optional scheduling yields.
+
+import (
+	"sync"
+	"sync/atomic"
+
+	"github.com/syndtr/goleveldb/leveldb/comparer"
+)
+
+// VerifTable describes one live table of a version.
+type VerifTable struct {
+	Level      int
+	Num        int64
+	Size       int64
+	IMin, IMax []byte
+}
+
+// VerifVersion is a pinned version handed to the version observer. The
+// version's tables cannot be removed until Release is called.
+type VerifVersion struct {
+	ID     int64
+	Tables []VerifTable
+	v      *version
+	once   sync.Once
+}
+
+// Release unpins the version. Must not be called from inside the observer.
+func (p *VerifVersion) Release() {
+	p.once.Do(func() { p.v.release() })
+}
+
+func verifTablesOf(v *version) []VerifTable {
+	var r []VerifTable
+	for level, tt := range v.levels {
+		for _, t := range tt {
+			r = append(r, VerifTable{
+				Level: level,
+				Num:   t.fd.Num,
+				Size:  t.size,
+				IMin:  append([]byte(nil), t.imin...),
+				IMax:  append([]byte(nil), t.imax...),
+			})
+		}
+	}
+	return r
+}
+
+var verifVersionObserver atomic.Value // func(*VerifVersion)
+
+// VerifSetVersionObserver installs f (nil to remove). f is called, with the
+// session's version mutex held, for every version installed by any DB; the
+// version is pinned and must be released by the receiver later.
+func VerifSetVersionObserver(f func(*VerifVersion)) {
+	verifVersionObserver.Store(f)
+}
+
+func verifVersionInstalled(s *session, v *version) {
+	f, _ := verifVersionObserver.Load().(func(*VerifVersion))
+	if f == nil || v.closing {
+		return
+	}
+	// vmu is held by the caller; v.ref >= 1 (held by the session), so this
+	// does not talk to the reference loop.
+	v.ref++
+	f(&VerifVersion{ID: v.id, Tables: verifTablesOf(v), v: v})
+}
+
+// VerifTables returns the table metadata of the current version.
+func (db *DB) VerifTables() []VerifTable {
+	v := db.s.version()
+	defer v.release()
+	return verifTablesOf(v)
+}
+
+// VerifFileRefs returns the reference loop's table reference counters.
+func (db *DB) VerifFileRefs() map[int64]int {
+	ch := make(chan map[int64]int)
+	select {
+	case db.s.fileRefCh <- ch:
+		return <-ch
+	case <-db.s.closeC:
+		return nil
+	}
+}
+
+// VerifWaitIdle waits until there is no frozen memdb and no table compaction
+// is needed or running, and the reference loop has processed everything that
+// was sent to it. It returns the error of the compaction machinery if any
+// (e.g. read-only, closed).
+func (db *DB) VerifWaitIdle() error {
+	for {
+		if err := db.compTriggerWait(db.mcompCmdC); err != nil {
+			return err
+		}
+		// Two round-trips: the second one is only received after the
+		// auto-compaction that followed the first one has finished.
+		if err := db.compTriggerWait(db.tcompCmdC); err != nil {
+			return err
+		}
+		if err := db.compTriggerWait(db.tcompCmdC); err != nil {
+			return err
+		}
+		if db.getFrozenMemNil() && !db.tableNeedCompaction() {
+			break
+		}
+	}
+	// The compaction that followed the last command may have committed but
+	// not yet released its inputs; the next command is only received once it
+	// has.
+	if err := db.compTriggerWait(db.tcompCmdC); err != nil {
+		return err
+	}
+	db.VerifFileRefs()
+	db.VerifFileRefs()
+	return nil
+}
+
+func (db *DB) getFrozenMemNil() bool {
+	db.memMu.RLock()
+	defer db.memMu.RUnlock()
+	return db.frozenMem == nil
+}
+
+// VerifSeq returns the DB's current sequence number.
+func (db *DB) VerifSeq() uint64 { return db.getSeq() }
+
+// VerifInternalComparer returns the internal-key comparer built on ucmp.
+func VerifInternalComparer(ucmp comparer.Comparer) comparer.Comparer {
+	return &iComparer{ucmp}
+}
+
+// VerifMakeInternalKey builds an internal key (kt: 0 delete, 1 value).
+func VerifMakeInternalKey(ukey []byte, seq uint64, kt uint) []byte {
+	return makeInternalKey(nil, ukey, seq, keyType(kt))
+}
+
+// VerifKeyMaxSeq is the largest sequence number.
+const VerifKeyMaxSeq = keyMaxSeq
+
+// VerifParseInternalKey parses an internal key.
+func VerifParseInternalKey(ik []byte) (ukey []byte, seq uint64, kt uint, err error) {
+	u, s, k, e := parseInternalKey(ik)
+	return u, s, uint(k), e
+}
+
+var verifYield atomic.Value // func(string)
+
+// VerifSetYield installs f (nil to remove), called at named points of the
+// read and write paths so that a checker can stretch those windows.
+func VerifSetYield(f func(point string)) {
+	verifYield.Store(f)
+}
+
+func verifPoint(point string) {
+	if f, _ := verifYield.Load().(func(string)); f != nil {
+		f(point)
+	}
+}
+
+var verifTrace atomic.Value // func(ev string, key []byte, n int)
+
+// VerifSetTrace installs f (nil to remove), called for write-path events.
+// key is the first key of the concerned write (nil if not applicable).
+func VerifSetTrace(f func(ev string, key []byte, n int)) {
+	verifTrace.Store(f)
+}
+
+func verifEvent(ev string, b *Batch, key []byte, n int) {
+	f, _ := verifTrace.Load().(func(string, []byte, int))
+	if f == nil {
+		return
+	}
+	if b != nil && len(b.index) > 0 {
+		key = b.index[0].k(b.data)
+	}
+	f(ev, append([]byte(nil), key...), n)
+}
